@@ -21,6 +21,10 @@ def imp(prop, k, src=None, name=None):
     tag = re.search(r"^//go:build (\w+)\s*$", text, re.M)
     pkgs = re.findall(r"\./((?:internal|cmd)/[\w/\-]+?)/?(?:\s|`|$)", notes)
     pkg = max(set(pkgs), key=pkgs.count) if pkgs else None
+    PK = {"logqlengine": "internal/logql/logqlengine", "logqlmetric": "internal/logql/logqlengine/logqlmetric", "dockerlog": "internal/dockerlog", "main": "cmd/docker-logql", "logql": "internal/logql", "lexer": "internal/logql/lexer", "otelstorage": "internal/otelstorage", "jsonexpr": "internal/logql/logqlengine/jsonexpr", "logqlpattern": "internal/logql/logqlengine/logqlpattern", "lexerql": "internal/lexerql", "iterators": "internal/iterators"}
+    pm = re.search(r"^package (\w+)", text, re.M)
+    if pm and pm.group(1).removesuffix("_test") in PK:
+        pkg = PK[pm.group(1).removesuffix("_test")]
     race = "-race " if re.search(r"go test[^\n]*-race", notes) and prop == "C18" else ""
     meta = {
         "property": prop,
@@ -49,6 +53,28 @@ WAVE2 = {  # /tmp/seed2/<dir>/SEED/<k> -> (property, seeded name)
 }
 
 if __name__ == "__main__":
+    if sys.argv[1] == "wave3":
+        g = sys.argv[2]
+        base = f"/tmp/seed3/{g}/SEED"
+        for k in sorted(int(x) for x in os.listdir(base) if x.isdigit()):
+            pf = os.path.join(base, str(k), "PROPERTY")
+            if not os.path.exists(pf):
+                print("no PROPERTY file for", k)
+                continue
+            prop = open(pf).read().strip()
+            marker = f"{g}/{k}"
+            existing = [n for n in os.listdir("/verif/seeded") if n.startswith(prop + "-")]
+            done = None
+            for n in existing:
+                m = json.load(open(f"/verif/seeded/{n}/meta.json"))
+                if m.get("wave3_source") == marker:
+                    done = n
+            name = done or f"{prop}-{max([int(n.split('-')[1]) for n in existing] + [0]) + 1}"
+            r = imp(prop, k, src=os.path.join(base, str(k)), name=name)
+            mp = f"/verif/seeded/{name}/meta.json"
+            m = json.load(open(mp)); m["wave3_source"] = marker; json.dump(m, open(mp, "w"), indent=1)
+            print(r)
+        sys.exit(0)
     if sys.argv[1] == "wave2":
         d = sys.argv[2]
         for k, (prop, name) in sorted(WAVE2[d].items()):
